@@ -9,6 +9,7 @@ import json
 
 import common as C
 import proofs as P
+import tableaumc
 
 VAL_CFG = "SPECIFICATION Spec\nINVARIANT Publish\nPOSTCONDITION Post\nCHECK_DEADLOCK FALSE\n"
 
@@ -67,6 +68,10 @@ def run(rep):
     rep.group_keys = ('clause', 'logic_family', 'root', 'argument_mixes_N_and_B')
     d = C.subdir('c02')
     thorough = rep.tier == 'thorough'
+    # pipeline C: all schedules of the modal calculus (rule table extracted from the code): completed => saturated,
+    # and the structure read off every open branch satisfies the branch
+    mlogics = ['K', 'D', 'T', 'S4', 'S5', 'KFDE', 'TK3', 'S4LP'] + (['KK3WQ', 'S5G3', 'TL3', 'S4GO', 'KB3E', 'S5RM3'] if thorough else [])
+    tableaumc.run_modal(rep, mlogics, d, 'c02', maxw=3, full=thorough)
     cases, stats = record_cases(rep, 'c02', 150 if thorough else 24, 8 if thorough else 2)
     validate(rep, cases, d, 'c02')
     rep.cov.update(stats)
